@@ -264,6 +264,114 @@ def sort_tree(t):
     return t
 
 
+def order_tree(desc, t):
+    """Put the keys of an abstracted tree into schema order (documents may reorder keys)."""
+    if not (isinstance(t, dict) and t.get("t") == "dict"):
+        return t
+    fields = [(k, f) for k, f in codec.seq(desc["fields"])]
+    names = [k for k, _ in fields]
+    fmap = dict(fields)
+
+    def rank(pair):
+        k = "".join(pair[0]["s"]) if pair[0].get("t") == "str" else ""
+        return (names.index(k) if k in names else len(names), k)
+
+    kv = []
+    for k, v in sorted(t["kv"], key=rank):
+        name = "".join(k["s"]) if k.get("t") == "str" else ""
+        f = fmap.get(name)
+        if f and f["kind"] == "schema":
+            v = order_tree(f, v)
+        elif f and f["kind"] == "list" and f["item"]["kind"] == "schema" and v.get("t") == "list":
+            v = {"t": "list", "l": [order_tree(f["item"], i) for i in v["l"]]}
+        kv.append([k, v])
+    return {"t": "dict", "kv": kv}
+
+
+ALPHA = "abcdefghijklmnopqrstuvwxyzABCDEFGHIJKLMNOPQRSTUVWXYZ0123456789 _-#!%&<>'\"/.,:;"
+
+
+def rnd_text(rng, lo=6, hi=12, edge=True):
+    body = "".join(rng.choice(ALPHA) for _ in range(rng.randint(lo, hi)))
+    if edge and rng.random() < 0.2:
+        body = rng.choice([" ", "\n", "\t"]) + body + rng.choice([" ", "\n", ""])
+    return body
+
+
+def S(text):
+    return {"t": "str", "s": list(text)}
+
+
+def B(n, rng):
+    return {"t": "bytes", "y": [rng.randint(0, 255) for _ in range(n)]}
+
+
+def D(**kw):
+    return {"t": "dict", "kv": [[S(k), v] for k, v in kw.items()]}
+
+
+def driver(cinco, desc, seed, n_traces, length):
+    import random
+
+    rng = random.Random(seed)
+    traces = []
+    for _ in range(n_traces):
+        w = World(cinco, desc, "trace")
+        events = []
+        try:
+            for _ in range(length):
+                r = rng.random()
+                if r < 0.6:
+                    which = rng.choice(["name", "pw", "hash", "blob", "bl", "sl", "dd", "api", "sub.tok", "vault", "vault.sec", "vault.inner.tok", "items", "sub.port", "vault.inner.n"])
+                    path, key = which.rsplit(".", 1) if "." in which else ("", which)
+                    p = path.split(".") if path else []
+                    if key in ("name", "api"):
+                        v = S(rnd_text(rng, 0, 10))
+                    elif key in ("pw", "tok", "sec"):
+                        v = rng.choice([S(rnd_text(rng, 6, 14, edge=False)), S(""), {"t": "none"}])
+                    elif key == "hash":
+                        v = S(rnd_text(rng, 6, 10, edge=False))
+                    elif key == "blob":
+                        v = rng.choice([B(rng.randint(0, 40), rng), {"t": "none"}])
+                    elif key == "bl":
+                        v = {"t": "list", "l": [B(rng.randint(0, 6), rng) for _ in range(rng.randint(0, 3))]}
+                    elif key == "sl":
+                        v = {"t": "list", "l": [S(rnd_text(rng, 6, 10, edge=False)) if rng.random() < 0.8 else S("") for _ in range(rng.randint(0, 3))]}
+                    elif key == "dd":
+                        v = {"t": "dict", "kv": [[S(k), B(rng.randint(0, 5), rng)] for k in rng.sample(["k1", "k2", "zz"], rng.randint(0, 3))]}
+                    elif key == "vault":
+                        v = D(sec=S(rnd_text(rng, 6, 10, edge=False)))
+                    elif key in ("port", "n"):
+                        v = {"t": "int", "i": rng.randint(0, 9999)}
+                    elif key == "items":
+                        v = {"t": "list", "l": [D(u=S(rnd_text(rng, 0, 5)), pw=S(rnd_text(rng, 6, 10, edge=False))) if rng.random() < 0.7 else D(u=S("u")) for _ in range(rng.randint(0, 3))]}
+                    ev = {"op": "Set", "p": p, "k": key, "v": v}
+                elif r < 0.85:
+                    ev = {"op": "RoundTrip", "fmt": rng.choice(["json", "yaml", "bson", "xml", "pickle"])}
+                else:
+                    m = rng.choice([None, "", "*", "#", "XXXX", "masked"])
+                    ev = {"op": "Render", "virtual": rng.random() < 0.5, "mask": {"m": "none"} if m is None else {"m": "str", "s": list(m)}}
+                try:
+                    res = w.step(ev)
+                    obs = w.observe()
+                except codec.Unrepresentable:
+                    break
+                rec = dict(ev)
+                rec["out"] = res["out"]
+                if "tree" in res:
+                    rec["tree"] = order_tree(desc, res["tree"])
+                if "keys" in res:
+                    rec["keys"] = res["keys"]
+                rec["leak"] = res.get("leak")
+                rec["nonplain"] = res.get("nonplain")
+                rec["cfg"] = obs["cfg"]
+                events.append(rec)
+        finally:
+            w.close()
+        traces.append({"init": {}, "events": events})
+    return traces
+
+
 def nonplain(x, path=""):
     if x is None or isinstance(x, (str, int, float, bool)):
         return None
@@ -367,7 +475,34 @@ def run_persist(prop, invs, props, tier, seed):
             "spec->code: %s differs from the specification: %s" % ({k: v for k, v in m.ev.items() if k in ("op", "fmt", "p", "k", "virtual", "mask")}, m.detail[:400]),
             m.to_json(),
         )
-    cases = stats["cases"] + stats2["cases"]
+    # code -> spec
+    from .. import tracecheck
+
+    ntr, ltr = (120, 12) if tier == "quick" else (1500, 18)
+    traces = driver(cinco, desc, seed, ntr, ltr)
+    tcfg = os.path.join(d, "trace.cfg")
+    with open(tcfg, "w") as fp:
+        fp.write(CFG.format(depth=99).replace("INIT Init", "INIT TraceInit").replace("NEXT Next", "NEXT TraceNext").replace("VIEW View", "VIEW TraceView") + "ACTION_CONSTRAINT Report\nCONSTRAINT ReportState\n")
+    wanted = set(invs) | set(props)
+    verdicts, tstats = tracecheck.validate("Trace_Persist.tla", tcfg, traces, wanted=wanted)
+    for v in [v for v in verdicts if not v.accepted][:20]:
+        k = (v.at or v.consumed + 1) - 1
+        e = v.trace["events"][k] if k < len(v.trace["events"]) else {}
+        if e.get("op") not in relevant and not v.bad_inv:
+            continue
+        out.violation(
+            "trace:%s:%s:%s" % (e.get("op"), e.get("fmt") or e.get("k") or "", ",".join(v.bad_inv or v.bad_obs or ["not-enabled"])),
+            "code->spec: recorded persistence trace rejected: %s" % v.describe()[:300],
+            v.to_json(),
+        )
+    # observations that have no counterpart in the specification's events
+    for t in traces:
+        for e in t["events"]:
+            if prop == "C03" and e.get("leak"):
+                out.violation("trace:leak:%s" % e.get("fmt"), "code->spec: secret plaintext %r found in the %s document" % (e["leak"], e.get("fmt")), {"kind": "leak", "event": e})
+            if prop in ("C02", "C10") and e.get("nonplain"):
+                out.violation("trace:nonplain", "code->spec: to_tree returned non-plain data at %s" % e["nonplain"], {"kind": "nonplain", "event": {k: v for k, v in e.items() if k != "cfg"}})
+    cases = stats["cases"] + stats2["cases"] + len(verdicts)
     by_op = {k: stats["by_op"].get(k, 0) + stats2["by_op"].get(k, 0) for k in set(stats["by_op"]) | set(stats2["by_op"])}
     distinct = {common.hash_case([cf, ck]) for cf, ck, _ in list(g.cases()) + list(g2.cases())}
     out.coverage = {
@@ -377,6 +512,9 @@ def run_persist(prop, invs, props, tier, seed):
         "tlc_instance": "MC_Persist SchemaP MaxDepth=%d predicates %s" % (depth, list(invs) + list(props)),
         "traces_validated_against_impl": cases,
         "spec_to_code_by_op": by_op,
+        "code_to_spec_traces": len(verdicts),
+        "code_to_spec_events": sum(len(t["events"]) for t in traces),
+        "code_to_spec_tlc_states": tstats["states"],
         "evaluations": cases,
         "distinct_nontrivial": len(distinct),
         "rule": "case = distinct (configuration state, event); RoundTrip cases really dump in the event's format (json, yaml, "
